@@ -81,7 +81,8 @@ protected:
   template<typename T = void> void* impl_lookup_symbol(const char*) { return nullptr; }
   template<typename T, typename T_Converted, typename... T_Args>
   auto impl_invoke_with_func_ptr(T_Converted* func_ptr, T_Args&&... params) { return (*func_ptr)(params...); }
-  template<typename R, typename... A> inline T_PointerType impl_register_callback(void*, void*) { return 0; }
+  // A_backend: a registration yields a non-zero entry point (or the backend aborts); this backend has one, fixed, entry point
+  template<typename R, typename... A> inline T_PointerType impl_register_callback(void*, void*) { return 0x40; }
   static inline std::pair<vsbx*, void*> impl_get_executed_callback_sandbox_and_key() { return { nullptr, nullptr }; }
   template<typename R, typename... A> inline void impl_unregister_callback(void*) {}
 };
